@@ -1,4 +1,5 @@
 import Chiritori.Lemmas.FormatWs
+import Chiritori.Lemmas.SeamExact
 /-
   C13 — Block-style removal keeps lines intact and leaves no blank-line residue.
 
@@ -9,9 +10,16 @@ import Chiritori.Lemmas.FormatWs
     (just behind the residual line break) or the position of a line break;
   * `non_blank_line_intact`: consequently no byte of any non-blank line, nor the line break that ends it, lies in
     the hull: surviving non-blank lines stay byte for byte, indentation included, each on a line of its own.
-  Not proved yet: the blank-line arithmetic `a + b - [a>0 ∧ b>0]` in closed form, and the lifting from one seam
-  to a block document (that every seam of such a document is block-style and that seams separated by a
-  non-blank line do not interact).  The first line of the file is the known finding D7.
+  * `seam_exact` (closed form, needs the completeness lemmas of the finders): at a block-style seam the hull is
+    exactly `[S, E)` with `S` = start of the blank line before the residue line if there is one, else the start
+    of the residue line, and `E` = the line break ending the blank line after it if there is one, else `pos`
+    (blank line before) or `pos + 1` (none);
+  * `seam_breaks`: so the hull is blanks plus exactly one line break - two when there is a blank line on both
+    sides.  With b blank lines before and a after, the b + 1 + a whitespace-only lines between the two non-blank
+    neighbours become a + b - [a>0 ∧ b>0]: the blank-line arithmetic of the property, at one seam.
+  Not proved yet: the lifting from one seam to a block document (that every seam of such a document is
+  block-style and that seams separated by a non-blank line do not interact).  The first line of the file is the
+  known finding D7.
 -/
 namespace Chiritori.Props.C13
 open Chiritori
@@ -228,6 +236,156 @@ theorem non_blank_line_intact (s : List Char) (pos : Nat) (r : Nat × Nat) (hp :
       · exact hnonl pos (by omega) (by omega) hnl
       · exact hnonl r.2 (by omega) (by omega) h
   · exact Or.inr hS
+
+/-! ### the hull in closed form -/
+
+/-- the line before the residue line is blank: it starts at `ls'` (not the first line of the text) -/
+structure PrevBlank (b : Bytes) (ls ls' : Nat) : Prop where
+  two : 2 ≤ ls'
+  lt : ls' < ls
+  skip : ∀ i, ls' ≤ i → i < ls - 1 → ∃ x, b[i]? = some x ∧ isSkipByte x
+  nl : b[ls' - 1]? = some (.lead '\n')
+
+/-- the line before the residue line has text: going back from its line break over blanks one meets a character -/
+structure PrevText (b : Bytes) (ls q : Nat) : Prop where
+  lt : q < ls - 1
+  skip : ∀ i, q < i → i < ls - 1 → ∃ x, b[i]? = some x ∧ isSkipByte x
+  stop : q = 0 ∨ ∃ x, b[q]? = some x ∧ isStopByte x
+
+/-- the line after the residue line is blank: its line break is at `e` -/
+structure NextBlank (b : Bytes) (pos e : Nat) : Prop where
+  le : pos + 1 ≤ e
+  skip : ∀ i, pos + 1 ≤ i → i < e → ∃ x, b[i]? = some x ∧ isSkipByte x
+  nl : b[e]? = some (.lead '\n')
+
+/-- the line after the residue line has text, or the text ends -/
+structure NextText (b : Bytes) (pos q : Nat) : Prop where
+  le : pos + 1 ≤ q
+  skip : ∀ i, pos + 1 ≤ i → i < q → ∃ x, b[i]? = some x ∧ isSkipByte x
+  stop : b[q]? = none ∨ ∃ x, b[q]? = some x ∧ isStopByte x
+
+theorem prevBlank_find {b : Bytes} {ls pos ls' : Nat} (h : BlockSeam b ls pos) (hp : PrevBlank b ls ls') :
+    findPrevLB b (ls - 1) true = some (ls' - 1) :=
+  findPrevLB_intro b (ls - 1) (ls' - 1) true (by have := hp.two; omega) (by have := hp.lt; have := hp.two; omega)
+    (by have := h.lt_len; have := h.le; omega) (fun i h1 h2 => hp.skip i (by omega) h2) hp.nl
+
+theorem prevText_find {b : Bytes} {ls pos q : Nat} (h : BlockSeam b ls pos) (hp : PrevText b ls q) :
+    findPrevLB b (ls - 1) true = none :=
+  findPrevLB_pause_none b (ls - 1) q hp.lt (by have := h.lt_len; have := h.le; omega) hp.skip hp.stop
+
+theorem nextBlank_find {b : Bytes} {pos e : Nat} (hn : NextBlank b pos e) :
+    findNextLB b (pos + 1) true = some e :=
+  findNextLB_intro b (pos + 1) e true (by omega) hn.le hn.skip hn.nl
+
+theorem nextText_find {b : Bytes} {pos q : Nat} (hn : NextText b pos q) :
+    findNextLB b (pos + 1) true = none :=
+  findNextLB_pause_none b (pos + 1) q hn.le hn.skip hn.stop
+
+/-- C13(b), closed form of the hull at a block-style seam, by what stands on the two neighbouring lines -/
+theorem seam_exact {b : Bytes} {ls pos : Nat} (h : BlockSeam b ls pos) :
+    (∀ q q', PrevText b ls q → NextText b pos q' →
+      formatBlock b pos seamFormatters (pos, pos) = .ok (ls, pos + 1)) ∧
+    (∀ ls' q', PrevBlank b ls ls' → NextText b pos q' →
+      formatBlock b pos seamFormatters (pos, pos) = .ok (ls', pos)) ∧
+    (∀ q e, PrevText b ls q → NextBlank b pos e →
+      formatBlock b pos seamFormatters (pos, pos) = .ok (ls, e)) ∧
+    (∀ ls' e, PrevBlank b ls ls' → NextBlank b pos e →
+      formatBlock b pos seamFormatters (pos, pos) = .ok (ls', e)) := by
+  refine ⟨?_, ?_, ?_, ?_⟩
+  · intro q q' hp hn
+    rw [h.hull, prevText_find h hp, nextText_find hn]
+  · intro ls' q' hp hn
+    rw [h.hull, prevBlank_find h hp, nextText_find hn]
+    have := hp.two
+    simp only [Except.ok.injEq, Prod.mk.injEq, and_true]; omega
+  · intro q e hp hn
+    rw [h.hull, prevText_find h hp, nextBlank_find hn]
+    have := hn.le
+    simp only [Except.ok.injEq, Prod.mk.injEq, true_and]; omega
+  · intro ls' e hp hn
+    rw [h.hull, prevBlank_find h hp, nextBlank_find hn]
+    have := hn.le; have := hp.two
+    simp only [Except.ok.injEq, Prod.mk.injEq]; omega
+
+theorem skip_not_nl {b : Bytes} {i : Nat} (h : ∃ x, b[i]? = some x ∧ isSkipByte x) : b[i]? ≠ some (.lead '\n') := by
+  obtain ⟨x, hx, hs⟩ := h
+  rw [hx]
+  rcases hs with rfl | rfl | rfl <;> simp
+
+/-- C13(b), the arithmetic: the hull removes blanks and exactly one line break - two when both neighbouring lines
+    are blank.  `L` lists the removed line breaks. -/
+theorem seam_breaks {b : Bytes} {ls pos : Nat} (h : BlockSeam b ls pos) (S E : Nat)
+    (hh : formatBlock b pos seamFormatters (pos, pos) = .ok (S, E)) :
+    (∀ q q', PrevText b ls q → NextText b pos q' → ∀ i, S ≤ i → i < E → (b[i]? = some (.lead '\n') ↔ i = pos)) ∧
+    (∀ ls' q', PrevBlank b ls ls' → NextText b pos q' → ∀ i, S ≤ i → i < E → (b[i]? = some (.lead '\n') ↔ i = ls - 1)) ∧
+    (∀ q e, PrevText b ls q → NextBlank b pos e → ∀ i, S ≤ i → i < E → (b[i]? = some (.lead '\n') ↔ i = pos)) ∧
+    (∀ ls' e, PrevBlank b ls ls' → NextBlank b pos e → ∀ i, S ≤ i → i < E →
+      (b[i]? = some (.lead '\n') ↔ i = ls - 1 ∨ i = pos)) := by
+  obtain ⟨e1, e2, e3, e4⟩ := seam_exact h
+  have h2 := h.two
+  have hle := h.le
+  refine ⟨?_, ?_, ?_, ?_⟩
+  · intro q q' hp hn i hi1 hi2
+    rw [e1 q q' hp hn] at hh
+    injection hh with hh; injection hh with hS hE; subst hS; subst hE
+    constructor
+    · intro hnl
+      by_cases hc : i = pos
+      · exact hc
+      · exact absurd hnl (skip_not_nl (h.ind i hi1 (by omega)))
+    · rintro rfl; exact h.nl
+  · intro ls' q' hp hn i hi1 hi2
+    rw [e2 ls' q' hp hn] at hh
+    injection hh with hh; injection hh with hS hE; subst hS; subst hE
+    have := hp.lt
+    constructor
+    · intro hnl
+      by_cases hc : i = ls - 1
+      · exact hc
+      · by_cases hlt : i < ls - 1
+        · exact absurd hnl (skip_not_nl (hp.skip i hi1 hlt))
+        · exact absurd hnl (skip_not_nl (h.ind i (by omega) hi2))
+    · rintro rfl; exact h.before
+  · intro q e hp hn i hi1 hi2
+    rw [e3 q e hp hn] at hh
+    injection hh with hh; injection hh with hS hE; subst hS; subst hE
+    constructor
+    · intro hnl
+      by_cases hc : i = pos
+      · exact hc
+      · by_cases hlt : i < pos
+        · exact absurd hnl (skip_not_nl (h.ind i hi1 hlt))
+        · exact absurd hnl (skip_not_nl (hn.skip i (by omega) hi2))
+    · rintro rfl; exact h.nl
+  · intro ls' e hp hn i hi1 hi2
+    rw [e4 ls' e hp hn] at hh
+    injection hh with hh; injection hh with hS hE; subst hS; subst hE
+    have := hp.lt
+    constructor
+    · intro hnl
+      by_cases hc1 : i = ls - 1
+      · exact Or.inl hc1
+      · by_cases hc2 : i = pos
+        · exact Or.inr hc2
+        · exfalso
+          by_cases hlt : i < ls - 1
+          · exact skip_not_nl (hp.skip i hi1 hlt) hnl
+          · by_cases hlt2 : i < pos
+            · exact skip_not_nl (h.ind i (by omega) hlt2) hnl
+            · exact skip_not_nl (hn.skip i (by omega) hi2) hnl
+    · rintro (rfl | rfl)
+      · exact h.before
+      · exact h.nl
+
+/-- the premises are satisfiable: `"foo\n\n  \n\nbar\n"`, residue line `"  "` at 5..7, a blank line on both sides -/
+example : BlockSeam (bytesOf "foo\n\n  \n\nbar\n".toList) 5 7 ∧ PrevBlank (bytesOf "foo\n\n  \n\nbar\n".toList) 5 4 ∧
+    NextBlank (bytesOf "foo\n\n  \n\nbar\n".toList) 7 8 := by
+  refine ⟨⟨by omega, by omega, by decide, ?_, by decide⟩, ⟨by omega, by omega, ?_, by decide⟩, ⟨by omega, ?_, by decide⟩⟩
+  · intro i h1 h2
+    have : i = 5 ∨ i = 6 := by omega
+    rcases this with rfl | rfl <;> exact ⟨.lead ' ', by decide, Or.inr (Or.inl rfl)⟩
+  · intro i h1 h2; omega
+  · intro i h1 h2; omega
 
 /-! Kernel-evaluated instances: the four (b, a) shapes around one seam (positions of CHANGELOG 0.3.0 style). -/
 def hull (src : String) (pos : Nat) : Option (Nat × Nat) :=
